@@ -3,8 +3,7 @@ package main
 // Test bed for the syncer part of C18: a real syncer.Syncer with
 //   - a ChainManager wrapper that logs handler enter/exit and holds every
 //     SendHeaders handler until the harness opens its gate,
-//   - a PeerStore wrapper that counts allowConnect passages (allowConnect looks up the ban list
-//     before it counts the peers),
+//   - a PeerStore wrapper whose Peers / UpdatePeerInfo calls can be held to pin a stage,
 //   - raw gateway clients bound to chosen 127.x.y.z source addresses, so that
 //     subnets differ or collide as the scenario wants.
 
@@ -103,8 +102,6 @@ func (b *blockingCM) History() ([32]types.BlockID, error) {
 
 type countingStore struct {
 	syncer.PeerStore
-	banned atomic.Int64 // number of allowConnect calls that reached the ban check
-
 	// calls that can be held to pin a stage: Peers (the peer loop's first move: keeps Run busy)
 	// and UpdatePeerInfo (called by addPeer just before it inserts the peer)
 	holdPeers, holdUpdate holdPoint
@@ -146,11 +143,6 @@ func (cs *countingStore) Peers() ([]syncer.PeerInfo, error) {
 func (cs *countingStore) UpdatePeerInfo(addr string, fn func(*syncer.PeerInfo)) error {
 	cs.holdUpdate.pass()
 	return cs.PeerStore.UpdatePeerInfo(addr, fn)
-}
-
-func (cs *countingStore) Banned(addr string) (bool, error) {
-	cs.banned.Add(1)
-	return cs.PeerStore.Banned(addr)
 }
 
 // ---------------------------------------------------------------- the bed
@@ -373,6 +365,24 @@ func (tb *bed) handshake(p *rawPeer) error {
 		}
 	}()
 	return nil
+}
+
+// refusedEarly reports whether the syncer has already closed the freshly opened connection
+// (allowConnect said no): it waits up to d for the connection to die.  The syncer sends nothing
+// before it has read our version, so on a connection that is still wanted the read just times out.
+func (p *rawPeer) refusedEarly(d time.Duration) bool {
+	p.conn.SetReadDeadline(time.Now().Add(d))
+	var b [1]byte
+	_, err := p.conn.Read(b[:])
+	p.conn.SetReadDeadline(time.Time{})
+	if err == nil {
+		return false
+	}
+	var ne net.Error
+	if errors.As(err, &ne) && ne.Timeout() {
+		return false
+	}
+	return true
 }
 
 func (p *rawPeer) isDead() bool {
